@@ -15,7 +15,8 @@ ASSUMPTIONS = [
     "values are integers (the tree code never looks into values beyond non-null)",
     "the driver keeps one current iterator: insert/find/begin/last/end replace it, remove-by-key resets it to end()",
     "starting trees are valid per ISO 32000 7.9.6/7.9.7 (the repair path NNTreeImpl::repair/validate on damaged trees is C08's subject and is not modelled)",
-    "name-tree keys are compared through getUTF8Value(); the PDFDoc/UTF-16 decoding itself is qpdf's (C14 covers it)",
+    "name-tree keys are compared through getUTF8Value(): modelled (Struct/NNKeys.v over C14's models of the QUtil conversions) and tied on all pairs of generated stored strings (namecmp); the text of a stored string that ISO 32000 gives no meaning (odd UTF-16 length, unpaired surrogate, FF FE mark, invalid UTF-8 after the mark, PDFDoc codes 0x7f/0x9f/0xad) is whatever the model says",
+    "the order required of name keys is that of their texts, code point by code point (helper documentation: names are normalized for lookup); the byte-wise order of the stored strings (ISO 32000-2 7.9.6) differs and is recorded as finding C18-F5",
     "iterator insertAfter is only specified when the key belongs at that position (header: DANGER ...); other uses are compared model-vs-implementation only",
     "number keys are exercised within 63 bits (the OCaml runner's int); long long extremes are not",
     "attachments: checked through the qpdf CLI against the extracted Coq specification att_job (Struct/AttachSpec.v, sorted map key -> record id); record fields are compared by this harness; file specifications are those the CLI creates (/F and /UF equal)",
